@@ -6,6 +6,7 @@ import (
 	"strconv"
 	"sync/atomic"
 
+	"github.com/internetarchive/Zeno/internal/pkg/verifhook"
 	"github.com/internetarchive/Zeno/pkg/models"
 	"github.com/philippgille/gokv/leveldb"
 )
@@ -95,11 +96,14 @@ func SeencheckItem(item *models.Item) error {
 			URLType = "seed"
 		}
 
+		verifhook.At("seen.check", items[i], URLType)
 		found, foundType := isSeen(hash)
+		verifhook.At("seen.result", items[i], URLType, found, foundType)
 
 		if !found {
 			// First time seen: mark and process
 			seen(hash, URLType)
+			verifhook.Obs("seen.recorded", items[i], URLType)
 			h.Reset()
 			continue
 		}
@@ -107,12 +111,14 @@ func SeencheckItem(item *models.Item) error {
 		if foundType == "asset" && URLType == "seed" {
 			// Promotion: allow processing again as seed
 			seen(hash, "seed")
+			verifhook.Obs("seen.recorded", items[i], "seed")
 			h.Reset()
 			continue
 		}
 
 		// All other cases: already seen, skip
 		items[i].SetStatus(models.ItemSeen)
+		verifhook.Obs("seen.skip", items[i], URLType, foundType)
 		h.Reset()
 	}
 
